@@ -105,6 +105,22 @@ extern "C" ssize_t __wrap_pwrite(int fd, const void* buf, size_t n, off_t off)
     if (r > 0) IO.bytes += (unsigned long)r;
     return r;
 }
+// a device that switched from pwrite to write(2) must still be observed
+extern "C" ssize_t __real_write(int, const void*, size_t);
+extern "C" ssize_t __wrap_write(int fd, const void* buf, size_t n)
+{
+    if (fd <= 2 || !IO.owned->count(fd)) return __real_write(fd, buf, n); // stdio of the harness itself
+    unsigned long idx = IO.n_pwrite++;
+    if (IO.site_kind == 2) {
+        if ((IO.mode == F_ENOSPC || IO.mode == F_ZERO) && (long)idx >= IO.site) { ++IO.faults_fired; if (IO.mode == F_ZERO) return 0; errno = ENOSPC; return -1; }
+        if ((IO.mode == F_EIO || IO.mode == F_SHORTFAIL) && (long)idx == IO.site) { ++IO.faults_fired; errno = EIO; return -1; }
+    }
+    size_t k = n;
+    if (IO.short_writes && n > 1 && vrng_chance(&IO.rng, 1, 2)) { k = (size_t)vrng_range(&IO.rng, 1, n - 1); ++IO.shorts; }
+    ssize_t r = __real_write(fd, buf, k);
+    if (r > 0) IO.bytes += (unsigned long)r;
+    return r;
+}
 extern "C" int __wrap_close(int fd)
 {
     ++IO.n_close;
